@@ -20,11 +20,14 @@ import (
 //	A: a.proto (imports depFile iff importsDep)
 //	W: depFile (w/w.proto or the well-known type path google/protobuf/any.proto) + LICENSE = wLicense
 //	U: u.proto + LICENSE = uLicense (never imported)
+// viImportModifier: "", "public " or "weak " - every import statement names a file the importer depends on.
+var viImportModifier = ""
+
 func viWorkspaceDigest(names []string, targets []bool, depFile string, importsDep bool, wLicense, uLicense []byte) Digest {
 	ctx := context.Background()
 	srcA := "syntax = \"proto3\";\npackage a;\n"
 	if importsDep {
-		srcA += "import \"" + depFile + "\";\n"
+		srcA += "import " + viImportModifier + "\"" + depFile + "\";\n"
 	}
 	srcA += "message A {}\n"
 	datas := []map[string][]byte{
@@ -67,6 +70,7 @@ func VerifLemma_C08F_ModuleDigestDeps() {
 		depFile = "google/protobuf/any.proto"
 	}
 	importsDep := verifNondetBool()
+	viImportModifier = []string{"", "public ", "weak "}[verifNondetChoice(3)]
 	// workspace 1 has concrete LICENSE bytes (its digests are real SHAKE256 values), workspace 2 arbitrary ones
 	w1, w2 := []byte{'x'}, verifNondetBytesN(1)
 	u1, u2 := []byte{'y'}, verifNondetBytesN(1)
